@@ -660,13 +660,14 @@ impl<'tcx> Cx<'tcx> {
         let tcx = self.tcx;
         let did = ldid.to_def_id();
         let kind = tcx.def_kind(did);
-        if !matches!(kind, DefKind::Fn | DefKind::AssocFn | DefKind::Closure) {
+        let is_const = matches!(kind, DefKind::AssocConst { .. } | DefKind::Const { .. });
+        if !matches!(kind, DefKind::Fn | DefKind::AssocFn | DefKind::Closure) && !is_const {
             return None;
         }
-        if !tcx.is_mir_available(did) {
+        if !is_const && !tcx.is_mir_available(did) {
             return None;
         }
-        let body = tcx.optimized_mir(did);
+        let body = if is_const { tcx.mir_for_ctfe(did) } else { tcx.optimized_mir(did) };
         let env = TypingEnv::post_analysis(tcx, did);
         let mut v: Vec<(&'static str, J)> = vec![
             ("key", J::Str(self.key(did))),
@@ -680,6 +681,12 @@ impl<'tcx> Cx<'tcx> {
         if kind == DefKind::Closure {
             v.push(("parent", J::Str(self.key(tcx.typeck_root_def_id(did)))));
             v.push(("direct_parent", J::Str(self.key(tcx.parent(did)))));
+        } else if is_const {
+            v.push(("vis", J::s(if tcx.visibility(did).is_public() { "pub" } else { "restricted" })));
+            v.push(("unsafe", J::Bool(false)));
+            if tcx.opt_associated_item(did).is_some() {
+                v.push(("container", J::Str(self.key(tcx.parent(did)))));
+            }
         } else {
             let vis = tcx.visibility(did);
             v.push(("vis", J::s(if vis.is_public() { "pub" } else { "restricted" })));
@@ -777,7 +784,7 @@ impl<'tcx> Cx<'tcx> {
         }
         v.push(("blocks", J::Arr(blocks)));
         // promoted constants of this body, as text (e.g. `&ErrorKind::Interrupted`)
-        if kind != DefKind::Closure || true {
+        if !is_const {
             let prom = tcx.promoted_mir(did);
             let mut pv = Vec::new();
             for pb in prom.iter() {
